@@ -275,6 +275,11 @@ def run_route(case, path):
                 # the records reached the log in another order (several worker processes): same records, permuted; then a restored run on it
                 shuffle_file(case, path)
                 res = Experiment(eval_tuples=triples, description=case.get("desc")).run(path, processes=1, seed=case.get("seed", 1))
+            if path is not None and case.get("regroup"):
+                # phase 6: the records of DIFFERENT ids reached the log in another order, the records of each single id (there may be several:
+                # duplicated / re-recorded ids) keep their order; then a restored run on it (theorem same_key_order_invariant)
+                case["_regroup_moved"] = regroup_file(case, path)
+                res = Experiment(eval_tuples=triples, description=case.get("desc")).run(path, processes=1, seed=case.get("seed", 1))
             return res, None, ctx.msgs, [v.calls for v in vals]
         except BaseException as ex:  # the final read of the log raised (or an interrupt escaped run())
             if not isinstance(ex, (Exception, KeyboardInterrupt)):
@@ -402,6 +407,7 @@ def decoy_case(case):
     c["rows"] = [[t, [decoy_val(r) for r in rows]] for t, rows in c["rows"]]
     c["decoy"] = False
     c["shuffle"] = None
+    c["regroup"] = False
     c["dup"] = []
     c["punch"] = []
     c["phases"] = 1
@@ -427,6 +433,43 @@ def tear_file(case, path):
     with open(path, "wb") as f:
         f.write(data[:len(data) - cut])
     return len(data) - start, len(data) - start - cut
+
+
+def rec_key(rec):
+    """the dictionary entry of `TransactionResult` a decoded log line goes to (Lean `recKey`)"""
+    if not rec:
+        return ("blank",)
+    if rec[0] == "I":
+        ids = list(rec[1])
+        return ("I", tuple(ids + [0] if len(ids) == 2 else ids))
+    if rec[0] in ("E", "L", "V"):
+        return (rec[0], rec[1])
+    return (rec[0],)
+
+
+def regroup_lines(keys, lines):
+    """Lean `regroupBy (recs.map recKey) recs`: the records of every key of the log are pulled to the front (stable), one key after the
+    other in log order - a rearrangement that keeps the relative order of the records of each single key"""
+    pairs = list(zip(keys, lines))
+    for k in keys:
+        pairs = [p for p in pairs if p[0] == k] + [p for p in pairs if p[0] != k]
+    return [ln for _, ln in pairs]
+
+
+def regroup_file(case, path):
+    """phase 6: rewrite the result file with the records after the version line grouped by key (same rearrangement as Lean `regroupLog`)"""
+    import gzip
+    opener = gzip.open if is_gzip_name(path) else open
+    with opener(path, "rb") as f:
+        lines = [ln for ln in f.read().split(b"\n") if ln.strip()]
+    if not lines:
+        return 0
+    head, rest = lines[:1], lines[1:]
+    keys = [rec_key(json.loads(ln.decode("utf-8"))) for ln in rest]
+    new = regroup_lines(keys, rest)
+    with opener(path, "wb") as f:
+        f.write(b"".join(k + b"\n" for k in head + new))
+    return sum(1 for a, b in zip(new, rest) if a != b)
 
 
 def shuffle_file(case, path):
@@ -1308,6 +1351,14 @@ def gen_rows(rng, prone, tags):
         if rng.chance(0.2):
             row = rng.shuffle(row)
         rows.append(["d", row])
+    if len(rows) >= 2 and rng.chance(0.15):
+        # phase 6 (key handling): a field whose name is another member of {1, True, 1.0} resp. {0, False, 0.0} in every row
+        cls = [["i", 0], False, ["f", "0.0"]] if any(k is True for k in keys) or rng.chance(0.4) else [["i", 1], True, ["f", "1.0"]]
+        off = rng.below(3)
+        nested = rng.chance(0.3)
+        for i, r in enumerate(rows):
+            k = cls[(i + off) % 3]
+            r[1].append([["s", "eqk"], ["d", [[k, gen_scalar(rng)]]]] if nested else [k, gen_scalar(rng) if rng.chance(0.7) else gen_seq(rng, 2)])
     return rows
 
 
@@ -1862,7 +1913,7 @@ class C07(Property):
             "(ragged field sets, str/int/bool/None/float/tuple field names, None, bools, ints, floats incl. decimal ties at the 5th decimal, NaN/inf, -0.0, unicode/newline strings, "
             "nested lists/tuples/dicts) and whose components carry generated params; it is run through Experiment.run without a file, with a plain or .gz file (fresh, or "
             "restored after a first run in which some evaluations failed, or restored from a complete log out of which PRNG-chosen E/L/V/I records were deleted - a non-prefix subset) "
-            "or whose records were permuted, or to which copies of records were appended under other ids so that ids are recorded twice, or a run that is stopped in the middle by a cell the encoder cannot write / a KeyboardInterrupt after other evaluations completed - alone or followed by a complete run on the same file) under result-file names of several shapes (x.log, x.log.gz, x.gz.bak, a.gz.d/x.log, names with spaces/unicode, .GZ) and Result.from_file. Non-trivial: at least one completed triple with >= 2 rows and >= 2 distinct fields. "
+            "or whose records were permuted, or grouped by record key so that every id's records keep their order (phase 6, also on logs with ids recorded twice), or to which copies of records were appended under other ids so that ids are recorded twice, or a run that is stopped in the middle by a cell the encoder cannot write / a KeyboardInterrupt after other evaluations completed - alone or followed by a complete run on the same file) under result-file names of several shapes (x.log, x.log.gz, x.gz.bak, a.gz.d/x.log, names with spaces/unicode, .GZ) and Result.from_file. Non-trivial: at least one completed triple with >= 2 rows and >= 2 distinct fields. "
             "Distinct = distinct canonical JSON of the case.")
     trusted_base = [
         "json text codec (json.dumps/json.loads), file write/read and gzip: modelled as the identity on values modulo tuple->list and key->string (jsonify); checked on every case by (A)",
@@ -1878,7 +1929,8 @@ class C07(Property):
         "translator step: Generated/C07Consts.lean is produced from the source by Python's ast (harness/props/c07.py c07_extract); an item it cannot recognise falls back to the model's value and is listed in notExtracted",
     ]
     assumptions = [
-        "field names of one transaction are pairwise not Python-equal unless identical (1 vs True vs 1.0 are never mixed)",
+        "ONE row / params dictionary cannot hold two Python-equal keys (1, True, 1.0 are one key for dict); different rows of a transaction, different components and nested "
+        "dictionaries of different cells do use different members of {1, True, 1.0} / {0, False, 0.0} (phase 6, tag key:python-equal-names): str() resp. json keep them apart",
         "nested dictionaries and params dictionaries have no two keys that json.dumps coerces to the same string, and no tuple keys (json.dumps raises TypeError on those)",
         "finite floats have magnitude within the normal binary64 range and |v*10^5| < 2^53 unless integral",
         "the 'rewards' column is exempt from the list->tuple conversion (explicit `k != 'rewards'` in packed_list2tuple): (B) accepts a list or a tuple there",
@@ -1973,6 +2025,8 @@ class C07(Property):
             if len(ls) >= 2 and rng.chance(0.6):
                 a, b = rng.sample(ls, 2); ops.append(["L", a, b])
             case["dup"] = ops
+        if mode in ("dup", "two", "punch", "fresh") and rng.chance(0.6 if mode == "dup" else 0.15):
+            case["regroup"] = True       # phase 6: records grouped by key before the last restored run (every id's records keep their order)
         if mode == "shuffle":
             case["shuffle"] = rng.choice([-1, -1, rng.randint(0, 10 ** 6), rng.randint(0, 10 ** 6)])
         if mode == "two":
@@ -2120,6 +2174,28 @@ class C07(Property):
         for shape in ("plain", "gz"):
             for ops in ([["I", [0, 0, 0], [2, 1, 0]]], [["E", 2, 0]], [["L", 1, 0]], [["I", [2, 0, 0], [0, 0, 0]], ["I", [0, 1, 0], [0, 0, 0]], ["E", 0, 1], ["E", 2, 1], ["L", 0, 1]]):
                 cs.append(dict(json.loads(json.dumps(g2)), fname=shape, gz=(shape == "gz"), dup=ops))
+                # phase 6: the same log with its records grouped by key (each id's two records keep their order), then a restored run
+                cs.append(dict(json.loads(json.dumps(g2)), fname=shape, gz=(shape == "gz"), dup=ops, regroup=True))
+        cs.append(dict(json.loads(json.dumps(g2)), fname="plain", gz=False, regroup=True))
+        cs.append(dict(json.loads(json.dumps(g2)), fname="gz", gz=True, regroup=True, phases=2, skip1=[g2["triples"][0]]))
+        # phase 6 (key handling): field names / nested keys / params keys that are EQUAL for Python but different objects (1 == True == 1.0,
+        # 0 == False == 0.0) in different rows / components: str() resp. json keep them apart ('1' / 'True' / '1.0'; '1' / 'true' / '1.0')
+        F1, F0 = ["f", "1.0"], ["f", "0.0"]
+        for shape in ("plain", "gz"):
+            for kw in ({}, {"phases": 2, "skip1": [[0, 0, 0]]}):
+                cs.append(base([D((I(1), S("int")), (S("z"), I(1))), D((True, S("bool"))), D((F1, S("float")), (S("z"), I(3))), D((I(1), S("int again")))],
+                               fname=shape, gz=(shape == "gz"), **kw))
+                cs.append(base([D((False, L(I(1)))), D((I(0), T(I(2)))), D((F0, None), (S("0"), S("str-too")))], fname=shape, gz=(shape == "gz"), **kw))
+                cs.append(base([D((S("d"), D((I(1), S("a"))))), D((S("d"), D((True, S("b"))))), D((S("d"), D((F1, S("c"))))), D((S("d"), L(D((False, I(0))), D((I(0), I(1))))))],
+                               fname=shape, gz=(shape == "gz"), **kw))
+            ek = base([D((I(1), I(1))), D((True, I(2)))], fname=shape, gz=(shape == "gz"))
+            ek.update({"envs": [{"params": D((I(1), S("e-int")))}, {"params": D((True, S("e-bool")))}, {"params": D((F1, S("e-float")))}],
+                       "lrns": [{"params": D((False, S("l-bool")), (S("x"), D((I(0), I(1)))))}, {"params": D((I(0), S("l-int")), (S("x"), D((False, I(1)))))}],
+                       "vals": [{"params": D((F0, S("v-float"))), "lazy": True}, {"params": D((I(0), S("v-int"))), "lazy": False}],
+                       "triples": [[0, 0, 0], [1, 1, 1], [2, 0, 1], [2, 1, 0]],
+                       "rows": [[t, [D(([I(1), True, F1, I(0)][i], I(i))), D(([True, F1, I(1), False][i], I(i + 10)))]] for i, t in enumerate([[0, 0, 0], [1, 1, 1], [2, 0, 1], [2, 1, 0]])]})
+            cs.append(ek)
+            cs.append(dict(json.loads(json.dumps(ek)), shuffle=-1))
         # result-file names of every shape (DiskSink and DiskSource must agree on what is gzip)
         for shape in FNAME_SHAPES:
             for ph in (1, 2):
@@ -2198,6 +2274,9 @@ class C07(Property):
             tags.append("decoy-run-on-same-path")
         if case.get("shuffle") is not None:
             tags.append("log-records-permuted" + (":reversed" if case["shuffle"] == -1 else ""))
+        if shown.get("regroup"):
+            moved = shown.pop("_regroup_moved", None) or case.pop("_regroup_moved", None) or 0
+            tags.append("log-records-regrouped" + (":ids-recorded-twice" if dup_ops(shown) else "") + (":moved" if moved else ":nothing-to-move"))
         if case.get("torn"):
             rec_len, left = shown.pop("_torn_seen", None) or case.pop("_torn_seen", None) or (0, 0)
             tags.append("torn:gzip-member" if not rec_len else "torn:last-record=%s:left-on-disk=%s" % (">64KiB" if rec_len > 65536 else "<=64KiB", "all-but-newline" if left == rec_len - 1 else (">64KiB" if left > 65536 else "<=64KiB")))
@@ -2230,6 +2309,16 @@ class C07(Property):
                 sh = p16_shape(rows, n)
                 if sh:
                     tags.append("shape:first-row:" + sh)
+            eqcls = {}
+            for r in rows:
+                for k, v in r[1]:
+                    if not (isinstance(k, list) and k[0] in ("s", "t")) and k is not None and dec(k) in (0, 1):
+                        eqcls.setdefault(int(dec(k)), set()).add(json.dumps(k))
+                    if isinstance(k, list) and k[0] == "s" and k[1] == "eqk" and isinstance(v, list) and v[0] == "d" and v[1]:
+                        eqcls.setdefault("nested", set()).add(json.dumps(v[1][0][0]))
+            for c, members in eqcls.items():
+                if len(members) >= 2:
+                    tags.append("key:python-equal-names" + (":nested" if c == "nested" else "") + (":all-three" if len(members) >= 3 else ""))
             for r in rows:
                 for k, v in r[1]:
                     tags.append("key:" + kind_of(k))
@@ -2335,6 +2424,13 @@ class C07(Property):
             # (C) phase 5: the log written and read through the (tag -> shape) tables = the model's route (theorem viaTables_eq / log_roundtrip_source at run time)
             if canon_model_result(ans["viaTables"]) != canon_model_result(ans["tt"]["nofile"]):
                 fails.append(F("C", "model: log through the record-shape tables differs from the model's encoder/reader", "C:viaTables"))
+            # (C) phase 6: the model's Result / padded tables of the log regrouped by key = those of the log as written (theorem regroupLog_same at run time)
+            if canon_model_result(ans["regrouped"]) != canon_model_result(ans["tt"]["file"]):
+                fails.append(F("C", "model: the log regrouped by key reads back differently from the log as written", "C:regrouped"))
+            if ans["padRegrouped"] != ans["pad"]:
+                fails.append(F("C", "model: padded tables of the log regrouped by key differ from those of the log as written", "C:regrouped:padded"))
+            if ans.get("regroupMoved"):
+                tags.append("C:regrouped:moved")
             # (C) phase 5: on clean runs (`cleanRunB`) the model's padded tables are `specTables`, also when the log is written in reverse
             # order (theorems tables_spec / tables_order_invariant / tables_punched_log at run time)
             if ans.get("clean"):
@@ -2455,6 +2551,8 @@ class C07(Property):
             c = cp(case); c["dup"] = []; yield c
             for i in range(len(case["dup"])):
                 c = cp(case); c["dup"].pop(i); yield c
+        if case.get("regroup"):
+            c = cp(case); c["regroup"] = False; yield c
         if case.get("shuffle") is not None:
             c = cp(case); c["shuffle"] = None; yield c
             if case["shuffle"] != -1:
